@@ -24,13 +24,62 @@ def spec_events(tree, snk, trail, locked, out):
         for c in kids:
             spec_events(c, s2, t2, l2, out)
 
+def hctx_reference(ops):
+    """python's own reading of context.rs: shared cell = one-element list holding the sink id, local cell =
+    two-element list [transform, parent cell]; a context = (shared, local, locked); clones alias the cells."""
+    regs = [([None], [None, None], False) for _ in range(4)]
+    ks = [None, None]
+    ls = [[None, None], [None, None]]
+    out = []
+    def trail(loc):
+        t = []
+        seen = 0
+        while loc is not None and seen < 10000:
+            if loc[0] is not None: t.append(str(loc[0]))
+            loc = loc[1]; seen += 1
+        return t
+    for o in ops:
+        k = o[0]
+        if k == 'new':
+            regs[int(o[1])] = ([None if o[2] == '-' else int(o[2])], [None, None], False)
+        elif k == 'clone':
+            regs[int(o[2])] = regs[int(o[1])]
+        elif k == 'pushed':
+            sh, lo, lk = regs[int(o[1])]
+            regs[int(o[2])] = (sh, lo, lk) if lk else (sh, [int(o[3]), lo], False)
+        elif k == 'push':
+            sh, lo, lk = regs[int(o[1])]
+            if not lk: regs[int(o[1])] = (sh, [int(o[2]), lo], lk)
+        elif k == 'locked':
+            sh, lo, lk = regs[int(o[1])]; regs[int(o[1])] = (sh, lo, o[2] == 'T')
+        elif k == 'nosink':
+            sh, lo, lk = regs[int(o[1])]; regs[int(o[2])] = ([None], lo, lk)
+        elif k == 'nolocal':
+            sh, lo, lk = regs[int(o[1])]; regs[int(o[2])] = (sh, [None, None], True)
+        elif k == 'takesink':
+            sh = regs[int(o[1])][0]; ks[int(o[2])] = sh[0]; sh[0] = None
+        elif k == 'replsink':
+            kk = int(o[2])
+            if ks[kk] is not None:
+                sh = regs[int(o[1])][0]; old = sh[0]; sh[0] = ks[kk]; ks[kk] = old
+        elif k == 'takelocal':
+            lo = regs[int(o[1])][1]; ls[int(o[2])] = [lo[0], lo[1]]; lo[0] = None; lo[1] = None
+        elif k == 'repllocal':
+            lo = regs[int(o[1])][1]; new = ls[int(o[2])]; ls[int(o[2])] = [lo[0], lo[1]]; lo[0] = new[0]; lo[1] = new[1]
+        elif k == 'send':
+            sh, lo, lk = regs[int(o[1])]
+            out.append(['send', o[2], 'sink%d' % sh[0]] + trail(lo) if sh[0] is not None else ['send', o[2], 'ret'])
+        elif k == 'apply':
+            out.append(['apply', o[2]] + trail(regs[int(o[1])][1]))
+    return out
+
 class C15(ParseProp):
     id = 'C15'
     files = ['tephra/src/context.rs', 'tephra/src/result.rs', 'tephra-combinator/src/control.rs']
     rule = ('seeded random operation trees over push/pushmut/locked/fork/raw/unrec/send/apply (depth <= tier bound, width <= 3), '
-            'with and without sink, every transform tagging the error it sees; plus all trees of a small exhaustive family; '
+            'with and without sink, every transform tagging the error it sees; plus all trees of a small exhaustive family; plus histories over the WHOLE Context API as a register machine (new/empty, clone, pushed, push, locked, without_error_sink, without_local_context, take/replace_error_sink, take/replace_local_context, send_error, apply_context) on four contexts with two sinks; '
             'non-trivial = tree with >= 2 pushes and a send/apply after a sibling raw/unrec/locked; distinct by tree')
-    assumptions = ['transforms are tagging closures; user code does not call take_*/replace_* on contexts']
+    assumptions = ['transforms are tagging closures; a saved local context is restored only into the context it was taken from (anything else can tie a parent chain into a cycle)']
 
     def cases(self, tier, rng):
         out = []
@@ -43,6 +92,11 @@ class C15(ParseProp):
             trees = [parsegen.random_ctree(r, depth, counter) for _ in range(1 + r.below(3))]
             n += 1
             out.append(parsegen.ctx_case('c%d' % n, r.below(2), trees))
+        # the whole Context API as a register machine (hctx-case): histories without and with the four cell-mutating
+        # operations (take/replace of the sink and of the local context)
+        for i in range(600 if tier == 'quick' else 8000):
+            n += 1
+            out.append(parsegen.hctx_case('c%d' % n, parsegen.random_hctx_ops(r, 6 + r.below(14), mutating=(i % 3 != 0))))
         # small exhaustive family: wrapper W around a send, followed by sibling sends at every level
         wrappers = ['raw', 'unrec', ['locked', 'T'], ['locked', 'F'], 'fork', ['push', 9], ['pushmut', 9]]
         for w1 in wrappers:
@@ -57,10 +111,21 @@ class C15(ParseProp):
 
     def nontrivial(self, ct, it):
         s = sexp.dump(ct)
+        if ct[0] == 'hctx-case':
+            return s.count('(pushed') + s.count('(push ') >= 2 and s.count('(clone') + s.count('(nosink') + s.count('(nolocal') >= 1
         return s.count('(push') >= 2 and any(w in s for w in ('(raw', '(unrec', '(locked'))
 
     def oracle(self, ct, it):
         f = ct[2:]
+        if ct[0] == 'hctx-case':
+            want = hctx_reference(sexp.field(f, 'ops'))
+            got = it[1:]
+            for i, (w, g) in enumerate(zip(want, got)):
+                if w != g:
+                    return [((i + 1,), 'event %s: got %s, the cell semantics of context.rs gives %s' % (i, sexp.dump(g), sexp.dump(w)))]
+            if len(want) != len(got):
+                return [(None, 'expected %d events, got %d' % (len(want), len(got)))]
+            return []
         snk = sexp.field(f, 'sink')[0] == '1'
         want = []
         for t in sexp.field(f, 'tree'):
@@ -77,6 +142,12 @@ class C15(ParseProp):
 
     def shrink(self, ct):
         f = ct[2:]
+        if ct[0] == 'hctx-case':
+            ops = sexp.field(f, 'ops')
+            for i in range(len(ops)):
+                if ops[i][0] not in ('takelocal',):
+                    yield parsegen.hctx_case(ct[1], ops[:i] + ops[i + 1:])
+            return
         trees = sexp.field(f, 'tree')
         snk = int(sexp.field(f, 'sink')[0])
         for i in range(len(trees)):
